@@ -42,8 +42,17 @@ impl DownloadManifest {
         // Validate header
         header.validate()?;
 
-        let mut entries = Vec::with_capacity(header.entry_count() as usize);
-        let mut tags = Vec::with_capacity(header.tag_count() as usize);
+        // The counts come from the header: reserve no more than the remaining
+        // input can hold (key + 40-bit size + priority + optional fields per
+        // entry; name terminator + type + bit mask per tag)
+        let remaining = data.len().saturating_sub(header.header_size());
+        let min_entry_size =
+            16 + 5 + 1 + if header.has_checksum() { 4 } else { 0 } + header.flag_size() as usize;
+        let min_tag_size = 1 + 2 + header.bit_mask_size();
+        let mut entries =
+            Vec::with_capacity((header.entry_count() as usize).min(remaining / min_entry_size));
+        let mut tags =
+            Vec::with_capacity((header.tag_count() as usize).min(remaining / min_tag_size));
 
         // All versions: Parse entries first
         for _ in 0..header.entry_count() {
